@@ -28,7 +28,7 @@ class ExplosionError(AnalysisError):
 
 class ValueInfo:
     """What a value on a path was computed from (path-sensitive, so a plain union)."""
-    __slots__ = ('params', 'fields', 'getters', 'const', 'has_const', 'calls', 'raw_reads', 'node', 'refreshed')
+    __slots__ = ('params', 'fields', 'getters', 'const', 'has_const', 'calls', 'raw_reads', 'node', 'refreshed', 'argv')
 
     def __init__(self):
         self.params = set()      # parameters of the *entry* method the value derives from
@@ -39,6 +39,7 @@ class ValueInfo:
         self.calls = set()
         self.node = None
         self.refreshed = False   # value was computed after a psd refresh on this path (getter/compute)
+        self.argv = None         # for a call value: the ValueInfo of each positional argument
 
     def merge(self, other):
         self.params |= other.params
@@ -52,6 +53,7 @@ class ValueInfo:
         v = ValueInfo()
         v.merge(self)
         v.const, v.has_const, v.node = self.const, self.has_const, self.node
+        v.argv = self.argv
         return v
 
     def __repr__(self):
@@ -555,6 +557,7 @@ class Typestate:
                     v.merge(a)
                 v.calls.add(normalise(f))
                 v.node = e
+                v.argv = list(argv[:len(e.args)])
                 out.append((q2, v))
         return out
 
@@ -600,6 +603,7 @@ def _subst(v, amap, path):
     r.calls |= v.calls
     r.const, r.has_const, r.node = v.const, v.has_const, v.node
     r.refreshed = v.refreshed
+    r.argv = [_subst(a, amap, path) for a in v.argv] if v.argv else None
     for pn in v.params:
         a = amap.get(pn)
         if a is not None:
